@@ -1,0 +1,53 @@
+//go:build verif
+
+package http
+
+import "github.com/arm-doe/sts"
+
+// Exports for the verification harness in /verif (build tag "verif" only).
+
+// VerifSanitizePathSegment exposes sanitizePathSegment.
+func VerifSanitizePathSegment(v string) (string, error) { return sanitizePathSegment(v) }
+
+// VerifSanitizeRelativePath exposes sanitizeRelativePath.
+func VerifSanitizeRelativePath(v string) (string, error) { return sanitizeRelativePath(v) }
+
+// VerifIsSubpath exposes isSubpath.
+func VerifIsSubpath(base, target string) bool { return isSubpath(base, target) }
+
+// VerifRootRelativePath exposes rootRelativePath.
+func VerifRootRelativePath(p string) string { return rootRelativePath(p) }
+
+// VerifNormalizeRepeatedSlashes exposes normalizeRepeatedSlashes.
+func VerifNormalizeRepeatedSlashes(p string) string { return normalizeRepeatedSlashes(p) }
+
+// VerifSwapGateKeepers replaces the server's gatekeeper table (under its lock) and
+// returns the previous one.
+func (s *Server) VerifSwapGateKeepers(next map[string]sts.GateKeeper) map[string]sts.GateKeeper {
+	s.lock.Lock()
+	defer s.lock.Unlock()
+	prev := s.GateKeepers
+	s.GateKeepers = next
+	return prev
+}
+
+// VerifSetGateKeeper installs one gatekeeper (under the server's lock).
+func (s *Server) VerifSetGateKeeper(source string, gk sts.GateKeeper) {
+	s.lock.Lock()
+	defer s.lock.Unlock()
+	s.GateKeepers[source] = gk
+}
+
+// VerifGetGateKeeper looks one gatekeeper up without creating it.
+func (s *Server) VerifGetGateKeeper(source string) (sts.GateKeeper, bool) {
+	s.lock.RLock()
+	defer s.lock.RUnlock()
+	gk, ok := s.GateKeepers[source]
+	return gk, ok
+}
+
+// VerifIsSafeRelPath exposes isSafeRelPath.
+func VerifIsSafeRelPath(p string) bool { return isSafeRelPath(p) }
+
+// VerifIsSafeSourceName exposes isSafeSourceName.
+func VerifIsSafeSourceName(p string) bool { return isSafeSourceName(p) }
